@@ -26,7 +26,7 @@ def txt(codes) -> str:
 def join_line(directory: str, parts, exp=None) -> dict:
     from werkzeug.security import safe_join
 
-    ln = {"op": "join", "dir": cps(directory), "parts": [cps(p) for p in parts], "np": [],
+    ln = {"op": "join", "dir": cps(directory), "cwd": cps(os.getcwd()), "parts": [cps(p) for p in parts], "np": [],
           "has_exp": exp is not None, "exp_ok": bool(exp and exp["ok"]), "exp_path": list(exp["path"]) if exp else []}
     try:
         r = safe_join(directory, *parts)
@@ -216,8 +216,8 @@ def serve_line(tree: Tree, api: str, raw: str) -> dict:
                 if api == "sdm_rel":
                     os.chdir(cwd)
             ln["status"] = got.get("status", 0)
-        if ln["status"] == 404:
-            ln["served"] = 0
+        if 400 <= ln["status"] <= 499:
+            ln["served"] = 0      # an error page, not a file
         else:
             ln["served"] = tree.served_id(body)
     except Exception as e:
